@@ -56,7 +56,10 @@ class Prop:
         files, meta = self._run_go(args, self.dir)
         self.shards = meta["shards"]
         self.extra_coverage = {"discarded_scenarios": meta.get("discarded", 0), "crashed_scenarios": meta.get("crashed", 0),
-                               "partial_scenarios": sum(1 for c in meta["cases"] if c.get("partial")),
+                               "partial_scenarios": sum(1 for c in meta["cases"] if c.get("partial") and not c.get("flood")),
+                               "flood_datagrams_all_opened": sum((c.get("flood") or {}).get("good", 0) for c in meta["cases"]),
+                               "flood_offenders": sum((c.get("flood") or {}).get("offenders", 0) for c in meta["cases"]),
+                               "flood_stalled": sum(1 for c in meta["cases"] if (c.get("flood") or {}).get("stalled")),
                                "pad_pairs": sum(len(c.get("lens") or []) for c in meta["cases"] if c.get("kind") == "pad")}
         return files, meta["cases"]
 
@@ -99,7 +102,7 @@ class Prop:
         return fs
 
     def shrink_candidates(self, case):
-        if case.get("kind") == "crashed" or (case.get("gen") or "").startswith("real-bind"):
+        if case.get("kind") == "crashed" or (case.get("gen") or "").startswith(("real-bind", "flood-")):
             return    # real-bind scenarios are regenerated by the harness (rounds), and which receive batch is mixed is up to the kernel
         if case.get("kind") == "pad":
             lens = case["lens"]
@@ -163,6 +166,10 @@ class Prop:
         k = evs[pos]["k"] if pos < len(evs) else "?"
         if pos < len(evs):
             obs = evs[pos].get("obs") or []
+            for o in obs:
+                raw = base64.b64decode(o.get("raw") or "")
+                if o["peer"] == 0 and raw and raw[0] >> 4 in (4, 6) and (case.get("gen") or "").startswith("flood-"):
+                    return "tun-packet-on-the-wire-in-the-clear:flood"
             if any(o["kind"] != 0 and o["peer"] == 0 for o in obs) or any(o["kind"] == 0 for o in obs):
                 return "datagram-opens-under-no-session:after-%s" % k
             seen = set()
